@@ -411,6 +411,10 @@ func ruleStateFormulas(c *Ctx, r *Report, prefix string) {
 					d[i] = v
 				}
 			}
+			// a small record of derived numbers (masks and shifts grouped in a struct)
+			if sub, isS := st.Field(i).Type().Underlying().(*types.Struct); isS && i != fi("Properties") && scalarStruct(sub) {
+				d[i] = in.loadCell(cl.field(i), st.Field(i).Type())
+			}
 		}
 		return d
 	}
@@ -420,13 +424,21 @@ func ruleStateFormulas(c *Ctx, r *Report, prefix string) {
 		cl.field(fi("Properties")).fields = map[int]*cell{
 			fieldIndex(prT, "LC"): {v: aInt(lc, it)}, fieldIndex(prT, "LP"): {v: aInt(lp, it)}, fieldIndex(prT, "PB"): {v: aInt(pb, it)}}
 		for i, v := range derivedOf(lc, lp, pb) {
+			if v.k == kStruct {
+				if sst, isSt := stT.Underlying().(*types.Struct); isSt {
+					in.storeCell(cl.field(i), v, sst.Field(i).Type())
+				}
+				continue
+			}
 			cl.field(i).v = v
 		}
 		cl.field(fi("state")).v = aInt(st, types.Typ[types.Uint32])
-		cl.field(fi("posBitMask")).v = aInt(1<<uint(pb)-1, types.Typ[types.Uint32])
+		if fi("posBitMask") >= 0 {
+			cl.field(fi("posBitMask")).v = aInt(1<<uint(pb)-1, types.Typ[types.Uint32])
+		}
 		return cl
 	}
-	if fi("Properties") < 0 || fi("state") < 0 || fi("posBitMask") < 0 {
+	if fi("Properties") < 0 || fi("state") < 0 {
 		c.miss("fields of lzma.state")
 		return
 	}
@@ -502,8 +514,10 @@ func ruleStateFormulas(c *Ctx, r *Report, prefix string) {
 				ok = false
 				break
 			}
-			if m, _ := cl.field(fi("posBitMask")).v.Int(); m != 1<<uint(pb)-1 {
-				ok = false
+			if fi("posBitMask") >= 0 {
+				if m, _ := cl.field(fi("posBitMask")).v.Int(); m != 1<<uint(pb)-1 {
+					ok = false
+				}
 			}
 			if s, _ := cl.field(fi("state")).v.Int(); s != 0 {
 				ok = false
@@ -764,3 +778,57 @@ func matchDistanceSym(v ssa.Value, sym map[ssa.Value]string, p *PState) string {
 var _ = constant.MakeInt64
 
 func constantFromUint64(x uint64) constant.Value { return constant.MakeUint64(x) }
+
+// scalarStruct: all fields are numbers or booleans (a record of derived parameters).
+func scalarStruct(st *types.Struct) bool {
+	for i := 0; i < st.NumFields(); i++ {
+		b, ok := st.Field(i).Type().Underlying().(*types.Basic)
+		if !ok || b.Info()&(types.IsInteger|types.IsBoolean) == 0 {
+			return false
+		}
+	}
+	return st.NumFields() > 0
+}
+
+// posMaskPaths: the paths (below the coder state) of the fields that hold 2^pb - 1 after Reset.
+func posMaskPaths(c *Ctx) []string {
+	stT, prT, reset := c.Type("lzma", "state"), c.Type("lzma", "Properties"), c.Func("lzma", "state.Reset")
+	st, ok := stT.Underlying().(*types.Struct)
+	if stT == nil || prT == nil || reset == nil || !ok {
+		return nil
+	}
+	run := func(pb int64) *cell {
+		in := NewInterp(c)
+		in.tolerant = true
+		in.MaxSteps = 400000
+		cl := in.newCellOf(stT)
+		it := types.Typ[types.Int]
+		in.storeCell(cl.field(fieldIndex(stT, "Properties")), aval{k: kStruct, typ: prT, flds: map[int]aval{
+			fieldIndex(prT, "LC"): aInt(0, it), fieldIndex(prT, "LP"): aInt(0, it), fieldIndex(prT, "PB"): aInt(pb, it)}}, prT)
+		in.call(reset, []aval{{k: kPtr, cell: cl}}, 0)
+		return cl
+	}
+	a, b := run(2), run(4)
+	var out []string
+	var walk func(t *types.Struct, ca, cb *cell, path string, depth int)
+	walk = func(t *types.Struct, ca, cb *cell, path string, depth int) {
+		for i := 0; i < t.NumFields(); i++ {
+			f := t.Field(i)
+			p := path + f.Name()
+			switch u := f.Type().Underlying().(type) {
+			case *types.Basic:
+				va, oka := ca.field(i).v.Int()
+				vb, okb := cb.field(i).v.Int()
+				if oka && okb && va == 3 && vb == 15 {
+					out = append(out, p)
+				}
+			case *types.Struct:
+				if depth < 2 && scalarStruct(u) {
+					walk(u, ca.field(i), cb.field(i), p+".", depth+1)
+				}
+			}
+		}
+	}
+	walk(st, a, b, "", 0)
+	return out
+}
